@@ -22,7 +22,8 @@ EX = "dclab.rtdc_dataset.export:Export.hdf5"
 ALLF = ["deform", "area_um", "fl1_max", "frame", "image", "image_bg", "mask",
         "contour", "trace", gen.USER_FEAT]
 KINDS = ["dict", "hdf5", "child-dict", "child-hdf5", "basin",
-         "grandchild-hdf5", "basin-perm", "basin-dup"]
+         "grandchild-hdf5", "basin-perm", "basin-dup", "basin-sup",
+         "basin-sub"]
 
 
 def masks_for(n, quick):
@@ -49,7 +50,11 @@ class Source:
         self.files = []
         self.keep = []
         ev = gen.make_events(n + 2 if kind.startswith("child") else
-                             n + 3 if kind.startswith("grandchild") else n,
+                             n + 3 if kind.startswith("grandchild") else
+                             # mapped basins holding fewer / more events
+                             # than the dataset that refers to them
+                             max(2, (n + 1) // 2) if kind == "basin-sup"
+                             else n + 3 if kind == "basin-sub" else n,
                              seed=seed)
         self.logs = {"vf-log": ["first line", "second µ line", "trailing blanks   "],
                      # more UTF-8 bytes than characters, > 100 bytes
@@ -59,7 +64,7 @@ class Source:
             [np.arange(3.0), np.arange(3.0) ** 2], names=["a", "b"])}
         base = scratch / f"c02_{tag}_{os.getpid()}"
         if kind in ("hdf5", "child-hdf5", "basin", "grandchild-hdf5",
-                    "basin-perm", "basin-dup"):
+                    "basin-perm", "basin-dup", "basin-sup", "basin-sub"):
             p = base.with_suffix(".src.rtdc")
             gen.write_rtdc(p, ev, logs=self.logs, tables=self.tables)
             self.files.append(p)
@@ -110,7 +115,7 @@ class Source:
             self.files.append(p2)
             ds = dclab.new_dataset(p2)
             self.idx = np.arange(n)
-        elif kind in ("basin-perm", "basin-dup"):
+        elif kind in ("basin-perm", "basin-dup", "basin-sup", "basin-sub"):
             # the events of this dataset are those of the basin in another
             # order (a mapping without / with repeated basin events)
             from dclab.rtdc_dataset.writer import RTDCWriter
@@ -118,6 +123,12 @@ class Source:
                               kind="stable")
             if kind == "basin-dup" and n > 2:
                 perm[1] = perm[-1]
+            if kind == "basin-sup":
+                # every basin event at least once, the later ones again
+                perm = perm % max(2, (n + 1) // 2)
+            elif kind == "basin-sub":
+                perm = np.argsort(np.sin(np.arange(n + 3) * 2.3 + seed),
+                                  kind="stable")[1:n + 1]
             p2 = base.with_suffix(".ref.rtdc")
             with RTDCWriter(p2, mode="reset") as hw:
                 hw.store_metadata(gen.complete_meta(n))
